@@ -56,7 +56,10 @@ func verifNewCatalogueNode(db *badger.DB) *verifCatalogueNode {
 
 func verifDatasetId(i int) uuid.UUID { return verifUUID(byte(0xD0 + i)) }
 
-func verifPartitionId(ds, p int) uuid.UUID { return verifUUID(byte(0x10*(ds+1) + p)) }
+// partition ids are server-generated and random: their creation order is in
+// general not their byte order (here: descending), and the position in the list
+// is what routes an item id to its partition
+func verifPartitionId(ds, p int) uuid.UUID { return verifUUID(byte(0x10*(ds+1) + 9 - p)) }
 
 // one symbolic catalogue change, as the bytes that would be in the log
 func verifCatalogueChange(step int) []byte {
